@@ -228,9 +228,15 @@ def r3_alaska(ctx):
     ctx.check(good, g, g.node, "Alaska.get_profile: rounds 0 and 1 replayed, later rounds delegated to the STV", "", "the round split in Alaska.get_profile changed")
 
 
+def r4_argument_order(ctx):
+    from vk import wiring
+    wiring.check_swapped(ctx, ("src/votekit/",), "package")
+
+
 RULES = [
     ("C13.R1", r1_aliases, 10, "IRV / SNTV / SequentialRCV are thin constructor-only subclasses with the documented arguments"),
     ("C13.R2", r2_toptwo, 5, "TopTwo: Plurality(2) role mapping, then Plurality(1) runoff renumbered 2"),
+    ("C13.R4", r4_argument_order, 1, "no call binds an argument to a differently named parameter while a same-named parameter exists (package-wide)"),
     ("C13.R3", r3_alaska, 14, "Alaska: Plurality(m_1) then STV(m_2,...) with +1 renumbering; get_profile agrees with the run"),
 ]
 
